@@ -1,10 +1,13 @@
 """C19, sequential part: Observer/Observable histories and single-thread TimeStamp histories (seqmc).  The threaded unit lives elsewhere."""
 from vcheck import Unit, ASAN, ASAN_ENV
 
+# exploration without symbolizer (a replay re-executes itself with symbolize=1, see harness/C10_seqmc.h)
+_ENV = dict(ASAN_ENV, ASAN_OPTIONS=ASAN_ENV["ASAN_OPTIONS"] + ":symbolize=0")
+
 UNITS_LOCAL = {"C19": [
     Unit("histories", ["harness/C19_histories.cpp"],
          repo_src=["rkcommon/utility/TimeStamp.cpp"],
-         flags=ASAN, env=ASAN_ENV, opt="-O1", engine="seqmc",
+         flags=ASAN, env=_ENV, opt="-O1", engine="seqmc",
          budget={"quick": 100, "thorough": 1000},
          rule=("obs: every history of 7 (thorough 8) enabled operations over 2 heap observables (both alive at the start) and 3 heap observer slots, alphabet of 18: create observer i on observable k, "
                "notifyObservers k, wasNotified i, destroy observer i, destroy observable k, create a new observable in slot k; reference model = one pending flag per observer (set by its observable's notify, "
